@@ -14,7 +14,7 @@ Plan genProbe(const std::string& prop, int tier, uint64_t batchSeed, uint64_t id
     g.cfg().set("rx", 1);
     g.addNode(1, 2, 1, 1);
     g.addNode(2, 2, 2, 1);
-    const int mode = static_cast<int>(r.below(tier ? 4 : 3));
+    const int mode = static_cast<int>(r.below(4));
     if (mode == 0)
     {
         // systematic: one base payload of one class, every truncation length 0 .. fixed+8, on every typed class's validator
